@@ -150,6 +150,71 @@ def worker(job):
     return rec
 
 
+def program_worker(job):
+    """A traced multi-step program (all inputs placeholders with symbolic / unknown dims): the artifact must
+    pass the checker, load, run at the generation sizes, and every requested output must reassemble by the
+    schema (all fields of a struct output of one shape, declared element types as run)."""
+    import onnx
+    from .. import progs
+    seed, = job
+    rng = random.Random(f"c05p/{seed}")
+    fams = ["nullable", "nullable", "where", "binary", "layout", "index", "shortcut", "cast", "reduce", "unary", "cmp", "logical"]
+    dts = ["nint32", "nfloat64", "nbool", "int64", "float32", "bool", "nutf8", "utf8", "nuint8", "int8"]
+    preset, steps = None, (1, 4)
+    if seed % 3 == 0:
+        # struct-typed results whose fields come from operands of different run-time shapes: a mask / nullable
+        # condition that broadcasts against the data only at run time (extent variable "U" is always 1)
+        r = rng.choice([1, 1, 2, 3])
+        D = [rng.choice(["A", "B", 2, 3]) for _ in range(r)]
+        Dm = [("U" if rng.random() < 0.6 else d) for d in D][rng.randrange(0, r):]
+        core = rng.choice(["int32", "float64", "int8", "utf8", "bool", "uint8"])
+        if rng.random() < 0.5:
+            preset, fams, steps = [{"dtype": core, "dims": D}, {"dtype": "bool", "dims": Dm}], ["nullable"], (1, 2)
+        else:
+            preset = [{"dtype": "nbool", "dims": Dm}, {"dtype": core, "dims": D}, {"dtype": core, "dims": D}]
+            fams, steps = ["where"], (1, 2)
+    prog = progs.generate(rng, seed=seed, families=fams, dtypes=dts, n_steps=steps, preset_inputs=preset,
+                          sizes={"A": rng.choice([0, 1, 2, 3]), "B": rng.choice([1, 2, 3])})
+    if prog is None:
+        return None
+    rec = {"desc": progs.describe(prog), "prog": prog, "fail": []}
+    style = rng.choice(["symbolic", "unknown", "unknown", "mixed"])
+    rec["style"] = style
+    lazy = set(range(len(prog["inputs"])))
+    sizes = prog["gen_sizes"]
+    try:
+        vals, arrs, res = progs.trace(prog, lazy, style, sizes, seed)
+        ins = {f"i{k}": arrs[k] for k in sorted(lazy)}
+        outs = {f"o{j}": r for j, r in enumerate(res)}
+        model = impl.ndx.build(ins, outs)
+    except Exception as e:
+        rec["fail"].append(("trace-or-build-raises", f"{type(e).__name__}: {str(e)[:200]}"))
+        return rec
+    try:
+        onnx.checker.check_model(model, full_check=True)
+    except Exception as e:
+        rec["fail"].append(("onnx-checker", f"{type(e).__name__}: {str(e)[:200]}"))
+    try:
+        sess = impl.session(model)
+    except Exception as e:
+        rec["fail"].append(("does-not-load", f"{type(e).__name__}: {str(e)[:200]}"))
+        return rec
+    feeds = {}
+    for k in sorted(lazy):
+        feeds.update(impl.feed(f"i{k}", vals[k], prog["inputs"][k]["dtype"]))
+    try:
+        raw = dict(zip([o.name for o in sess.get_outputs()], sess.run(None, feeds)))
+    except Exception as e:
+        rec["fail"].append(("run-raises", f"{type(e).__name__}: {str(e)[:200]}"))
+        return rec
+    for j, r in enumerate(res):
+        got = impl.collect(raw, f"o{j}", r)
+        if isinstance(got, impl.Malformed):
+            rec["fail"].append(("output-does-not-reassemble", f"step {j} ({prog['steps'][j]['op']}): {got}"[:300]))
+            break
+    return rec
+
+
 def roundtrip_worker(job):
     """Identity model per dtype/shape: disassemble input by the schema, run, assemble output; value round-trips."""
     import ndonnx._build as nb
@@ -218,6 +283,18 @@ def run(ctx: common.Ctx):
                 want = [e.split(":")[0] for e in ans.split()[1:]] if ans.startswith("ok") else None
                 if want is not None and got != want and not r["fail"]:
                     ctx.corr_broken("build-interface-model", {"signature": sig, "which": which, "implementation": got, "model": want})
+    pj = [(ctx.seed * 7919 + k,) for k in range(900 if quick else 6000)]
+    for job, r in tables.pairs(ctx, pj, tables.pmap(program_worker, pj, chunk=4)):
+        if r is None:
+            continue
+        if isinstance(r, tables.Crashed):
+            ctx.violation("program-artifact/interpreter-crash", f"{job}: worker died", {"job": repr(job)}); continue
+        ctx.case(("program", job[0]), True, {"program": r["desc"], "style": r["style"]} if len(ctx.samples) < 8 else None)
+        ctx.count("traced-program-artifacts")
+        for kind, detail in r["fail"]:
+            op = detail.split("(")[1].split(")")[0] if kind == "output-does-not-reassemble" and "(" in detail else "program"
+            ctx.violation(f"program-artifact/{op}/{kind}", f"{r['desc']} [{r['style']}]: {kind}: {detail}"[:600],
+                          {"program": r["prog"], "style": r["style"], "kind": kind, "detail": detail, "seed": job[0]})
     rj = [(d, s, decl) for d in impl.ALL_DTYPES for s, decl in (((3,), (3,)), ((2, 2), ("N", 2)), ((0,), (None,)))]
     for job, r in tables.pairs(ctx, rj, tables.pmap(roundtrip_worker, rj, chunk=8)):
         if isinstance(r, tables.Crashed):
